@@ -54,6 +54,7 @@ fn main() {
         }
     }
     // pgcat's command regexes are process-global and must be initialised once, as main() does
+    #[cfg(feature = "lib")]
     pgcat::query_router::QueryRouter::setup();
     // keep panics of library code under test quiet but visible to catch_unwind
     std::panic::set_hook(Box::new(|_| {}));
